@@ -474,7 +474,8 @@ def check_partition_sites(ctx, rule="R5.2", only=None):
         if its == "range(%s)" % NJ and isinstance(g.target, ast.Name):
             form = "range"
             lo_t, hi_t = "%s[%s]" % (ST, ivar), "%s[%s + 1]" % (ST, ivar)
-        elif its == "zip(%s[:-1], %s[1:])" % (ST, ST) and isinstance(g.target, ast.Tuple) and \
+        elif its in ("zip(%s[:-1], %s[1:])" % (ST, ST), "zip(%s, %s[1:])" % (ST, ST)) and \
+                isinstance(g.target, ast.Tuple) and \
                 len(g.target.elts) == 2 and all(isinstance(e, ast.Name) for e in g.target.elts):
             form = "pairs"
             lo_t, hi_t = g.target.elts[0].id, g.target.elts[1].id
@@ -482,9 +483,11 @@ def check_partition_sites(ctx, rule="R5.2", only=None):
             m1 = match("[slice(%s[_I_], %s[_I_ + 1]) for _I_ in range(%s)]" % (ST, ST, NJ), it_def)
             m2 = match("[_EX_[%s[_I_]:%s[_I_ + 1]] for _I_ in range(%s)]" % (ST, ST, NJ), it_def)
             if m1 is None:
-                m1 = match("[slice(_LO_, _HI_) for _LO_, _HI_ in zip(%s[:-1], %s[1:])]" % (ST, ST), it_def)
+                m1 = match("[slice(_LO_, _HI_) for _LO_, _HI_ in zip(%s[:-1], %s[1:])]" % (ST, ST), it_def) or \
+                    match("[slice(_LO_, _HI_) for _LO_, _HI_ in zip(%s, %s[1:])]" % (ST, ST), it_def)
             if m2 is None:
-                m2 = match("[_EX_[_LO_:_HI_] for _LO_, _HI_ in zip(%s[:-1], %s[1:])]" % (ST, ST), it_def)
+                m2 = match("[_EX_[_LO_:_HI_] for _LO_, _HI_ in zip(%s[:-1], %s[1:])]" % (ST, ST), it_def) or \
+                    match("[_EX_[_LO_:_HI_] for _LO_, _HI_ in zip(%s, %s[1:])]" % (ST, ST), it_def)
             if m1 is not None:
                 form = "slices"
                 lo_t, hi_t = "%s.start" % g.target.id, "%s.stop" % g.target.id
